@@ -50,6 +50,32 @@ theorem C11_put_ok_iff (p : Pair) (k : Key) (v : Val) (pref : Side) :
     rw [(putOn_ok_iff .A p k v).2 ha, (putOn_ok_iff .B _ k v).2 (by rw [faultAt_B_after_putA]; exact hb)]
     rfl
 
+/-- If a replica's `Put` fails - with whatever code, in particular `Canceled`
+because the upload's context was cancelled while that replica was still
+writing - the upload is reported as failed, whatever the other replica did and
+whichever goroutine `errgroup.Wait` heard first: no code is "somebody else's
+failure". -/
+theorem C11_put_fails_if_any_fails (p : Pair) (k : Key) (v : Val) (pref : Side) (s : Side) (c : Code)
+    (h : (p.rep s).faultAt .put = some c) : ∃ e, (put p k v pref).2 = .error e := by
+  cases hr : (put p k v pref).2 with
+  | error e => exact ⟨e, rfl⟩
+  | ok u =>
+    have := (C11_put_ok_iff p k v pref).1 hr
+    cases s
+    · rw [this.1] at h; cases h
+    · rw [this.2] at h; cases h
+
+/-- The caller cancels while B is still writing and A has stored the object:
+the upload fails with `Canceled` under B's name, although A holds the object. -/
+theorem C11_put_cancelled (p : Pair) (k : Key) (v : Val) (pref : Side)
+    (ha : (p.rep .A).faultAt .put = none) (hb : (p.rep .B).faultAt .put = some canceled) :
+    (put p k v pref).2 = .error ⟨canceled, [.backend .B], .fault .B .put ((p.rep .B).cnt .put)⟩ ∧
+    (put p k v pref).1.holds .A k v ∧ ((put p k v pref).1.rep .B).store k = (p.rep .B).store k := by
+  refine ⟨?_, C11_put_partial p k v pref .A ha, ?_⟩
+  · rw [put_snd, putOn_snd, putOn_snd, faultAt_B_after_putA, cnt_B_after_putA, ha, hb]
+    cases pref <;> rfl
+  · rw [put_fst, putOn_store_same, faultAt_B_after_putA, hb, putOn_store_ne _ _ _ _ _ (by decide)]
+
 /-- **C11_put_both.** A successful upload is present in both replicas. -/
 theorem C11_put_both (p : Pair) (k : Key) (v : Val) (pref : Side) (h : (put p k v pref).2 = .ok ()) :
     (put p k v pref).1.holds .A k v ∧ (put p k v pref).1.holds .B k v :=
@@ -560,6 +586,9 @@ attribute [local simp] findMissing fmOn Replica.faultAt exQuiet exFaulty exStore
 example : (put exQuiet 3 30 .A).2 = .ok () := rfl
 example : (put exFaulty 3 30 .A).2 = .error ⟨14, [.backend .A], .fault .A .put 0⟩ := rfl
 example : (put exFaulty 3 30 .A).1.holds .B 3 30 := rfl
+-- B is still writing when the upload's context is cancelled (its Put returns Canceled): not a success
+example : (put ⟨fun s => ⟨exStore s, fun m i => if s = .B ∧ m = .put ∧ i = 0 then some canceled else none, fun _ => 0⟩, 0⟩
+    3 30 .A).2 = .error ⟨canceled, [.backend .B], .fault .B .put 0⟩ := rfl
 -- round 0: A is consulted first; 2 is only in B: read repair
 example : (get exCfg exQuiet 2).2 = .ok 20 ∧ (get exCfg exQuiet 2).1.holds .A 2 20 := ⟨rfl, rfl⟩
 example : ∃ s, (exQuiet.rep s).store 2 ≠ none := ⟨.B, by simp [exQuiet, exStore]⟩
